@@ -83,6 +83,7 @@ type runner struct {
 
 func Run(r *corr.Run) {
 	r.SetRule("a case = one operation of a workload with every storage-call boundary crashed and faulted; non-trivial when the operation issued at least one write")
+	sweepStale()
 	workloads := r.Pick(60, 3000)
 	for wl := 0; wl < workloads && r.TimeLeft(); wl++ {
 		runWorkload(r, wl)
@@ -97,13 +98,14 @@ func runWorkload(r *corr.Run, wl int) {
 	defer fx.cleanup()
 	main, err := fx.open(fx.newDir("main"), true)
 	if err != nil {
+		fx.cleanup()
 		r.Fatal(err.Error())
 	}
 	defer func() { main.close() }()
 	rn := &runner{r: r, fx: fx, main: main, lastLen: map[string]int{}}
 	rn.g = newGen(rn)
 	if r.Ask("reset") != "ok" {
-		r.Fatal("model does not reset")
+		rn.fatal("model does not reset")
 	}
 	rn.modelOps = []string{"reset"}
 	nOps := 8 + r.Intn(6)
@@ -133,7 +135,7 @@ func (rn *runner) attempt(w *World, f func(w *World) error, img bool, inject int
 		if img {
 			d := rn.fx.newDir("img")
 			if e := copyImage(w.dir, d); e != nil {
-				rn.r.Fatal("copy image: " + e.Error())
+				rn.fatal("copy image: " + e.Error())
 			}
 			imgs = append(imgs, d)
 		}
@@ -156,11 +158,35 @@ func (rn *runner) attempt(w *World, f func(w *World) error, img bool, inject int
 	if img {
 		d := rn.fx.newDir("img")
 		if e := copyImage(w.dir, d); e != nil {
-			rn.r.Fatal("copy image: " + e.Error())
+			rn.fatal("copy image: " + e.Error())
 		}
 		imgs = append(imgs, d)
 	}
 	return
+}
+
+// fatal: the harness itself is broken; the workload's temp directory must not outlive the process.
+func (rn *runner) fatal(msg string) {
+	rn.fx.cleanup()
+	rn.r.Fatal(msg)
+}
+
+// sweepStale removes temp directories of runs that were killed (older than an hour).
+func sweepStale() {
+	for _, root := range []string{"/dev/shm", os.TempDir()} {
+		ents, err := os.ReadDir(root)
+		if err != nil {
+			continue
+		}
+		for _, e := range ents {
+			if !e.IsDir() || !strings.HasPrefix(e.Name(), "verif-store-") {
+				continue
+			}
+			if info, err := e.Info(); err == nil && time.Since(info.ModTime()) > time.Hour {
+				os.RemoveAll(root + "/" + e.Name())
+			}
+		}
+	}
 }
 
 func (rn *runner) timed(key string) func() {
@@ -171,7 +197,7 @@ func (rn *runner) timed(key string) func() {
 func (rn *runner) dump(w *World) *Dump {
 	d, err := dumpDB(w.real, rn.fx)
 	if err != nil {
-		rn.r.Fatal("dump: " + err.Error())
+		rn.fatal("dump: " + err.Error())
 	}
 	return d
 }
@@ -261,7 +287,7 @@ func (rn *runner) exec(op *opSpec) {
 			rn.violate("", "hang", fmt.Sprintf("%s: %v; trace so far: %s", op.kind, err, renderTrace(evs, fx.in.get, fx.collName)))
 			return
 		}
-		r.Fatal(fmt.Sprintf("operation %q failed on the fault-free run: %v", op.desc, err))
+		rn.fatal(fmt.Sprintf("operation %q failed on the fault-free run: %v", op.desc, err))
 	}
 	rn.lastLen[op.kind] = len(evs)
 	post := rn.dump(main)
@@ -357,7 +383,7 @@ func (rn *runner) exec(op *opSpec) {
 			continue
 		}
 		if fr.fatal != "" {
-			r.Fatal(fr.fatal)
+			rn.fatal(fr.fatal)
 		}
 		for _, c := range fr.counts {
 			r.Count(c)
